@@ -288,6 +288,7 @@ class Puppet:
         self.alive = True
         self.rbuf = b""
         self.role = None
+        self.sim = None
         self.fds = {f["fd"]: f for f in hello["fds"]}
 
     def rpc(self, line):
@@ -297,7 +298,12 @@ class Puppet:
             raise HarnessError("puppet %s vanished while sending %r" % (self.name, line))
         deadline = time.time() + WATCHDOG
         while b"\n" not in self.rbuf:
-            r, _, _ = select.select([self.sock], [], [], 1.0)
+            if self.sim is not None and self.sim.idle_cb is not None:
+                # a puppet writing to the terminal only gets on when the master side is drained
+                self.sim.idle_cb()
+                r, _, _ = select.select([self.sock], [], [], 0.002)
+            else:
+                r, _, _ = select.select([self.sock], [], [], 1.0)
             if r:
                 d = self.sock.recv(65536)
                 if not d:
@@ -565,6 +571,7 @@ class Sim:
                 raise HarnessError("bad puppet greeting %r" % line[:80])
             hello = json.loads(line[6:].decode())
             p = Puppet(conn, hello)
+            p.sim = self
             p.rbuf = rest
             self.puppets[p.pid] = p
             got.append(p)
